@@ -790,18 +790,30 @@ class LBar:
 class LHold:
     f: LFoo = field(default_factory=LFoo)
     g: Optional[LFoo] = None
+@dataclass
+class LGeo:
+    lat: int = 0
+@dataclass
+class LAddr:
+    geo: LGeo = field(default_factory=LGeo)   # a named type used once, inside a type shared by two roots
+@dataclass
+class LCust:
+    addr: LAddr = field(default_factory=LAddr)
+@dataclass
+class LSupp:
+    addr: LAddr = field(default_factory=LAddr)
 def foo_to_bar(foo: LFoo) -> LBar: return LBar(str(foo.a))
 def bar_from_foo(foo: LFoo) -> LBar: return LBar(str(foo.a))
-SER_MENU = {"Foo": LFoo, "Bar": LBar, "List[Foo]": List[LFoo], "Optional[Foo]": Optional[LFoo], "Dict[str,Foo]": Dict[str, LFoo], "Hold": LHold,
+SER_MENU = {"Cust": LCust, "Supp": LSupp, "Foo": LFoo, "Bar": LBar, "List[Foo]": List[LFoo], "Optional[Foo]": Optional[LFoo], "Dict[str,Foo]": Dict[str, LFoo], "Hold": LHold,
             "(Foo,foo_to_bar)": (LFoo, foo_to_bar), "(List[Foo],foo_to_bar)": (List[LFoo], foo_to_bar)}
-DES_MENU = {"Foo": LFoo, "Bar": LBar, "List[Bar]": List[LBar], "Optional[Bar]": Optional[LBar], "Dict[str,Bar]": Dict[str, LBar], "Hold": LHold,
+DES_MENU = {"Cust": LCust, "Supp": LSupp, "Foo": LFoo, "Bar": LBar, "List[Bar]": List[LBar], "Optional[Bar]": Optional[LBar], "Dict[str,Bar]": Dict[str, LBar], "Hold": LHold,
             "(Bar,bar_from_foo)": (LBar, bar_from_foo), "(List[Bar],bar_from_foo)": (List[LBar], bar_from_foo)}
 '''
 
 
 def run_definition_lists(st: infra.Stats, tier: str):
     """definitions_schema over LISTS of entries, plain types and documented (type, dynamic conversion) pairs: every list of
-    length <= 3 (thorough: 4) over a menu of 8 entries sharing two classes. Oracle: with all_refs=True the definitions are
+    length <= 3 (thorough: 4) over a menu of 10 entries sharing classes. Oracle: with all_refs=True the definitions are
     the union of the definitions of each entry alone (same bodies); with all_refs=False they do not depend on the order of
     the list; every $ref of the schema of an entry generated with a ref_factory resolves in them (all_refs=True)."""
     import itertools
@@ -838,6 +850,14 @@ def run_definition_lists(st: infra.Stats, tier: str):
                 dangling = sorted({r for n in names for r in ext_refs[n]} - set(d_all))
                 if dangling:
                     st.violation(dict(base, signature={"kind": "definitions_list_dangling", "side": side, "refs": dangling[:2]}, what=f"definitions_schema({side}={list(names)}, all_refs=True) lacks {dangling} referenced by the schemas of its entries"[:400]))
+                if not any(isinstance(e, tuple) for e in entries):
+                    # only named types used more than once are extracted: the same definitions as the inline $defs of one
+                    # type holding every entry (modulo the entries themselves, which definitions_schema always names)
+                    roots = {getattr(e, "__name__", None) for e in entries}
+                    inline = json.loads(json.dumps(fn(Tuple[tuple(entries)], all_refs=False, with_schema=False))).get("$defs", {})
+                    a, b = {k: v for k, v in d_min.items() if k not in roots}, {k: v for k, v in inline.items() if k not in roots}
+                    if a != b:
+                        st.violation(dict(base, signature={"kind": "definitions_list_extraction", "side": side, "extra": sorted(set(a) - set(b))[:2], "missing": sorted(set(b) - set(a))[:2]}, what=f"definitions_schema({side}={list(names)}, all_refs=False) extracts {sorted(a)} (besides the entries), the inline $defs of Tuple[entries] are {sorted(b)}"[:400]))
                 if d_min != d_min_sorted:
                     st.violation(dict(base, signature={"kind": "definitions_list_order", "side": side}, what=f"definitions_schema({side}=...) depends on the order of the list: {sorted(d_min)} for {list(names)}, {sorted(d_min_sorted)} for {sorted(names)}"[:400]))
     import sys
